@@ -1031,6 +1031,9 @@ func phiBranch(b, via *ssa.BasicBlock) int {
 				equal = false
 			} else if c, isC := v.(*ssa.Const); isC && c.Value != nil {
 				equal = false
+			} else if isNil, known := nilnessOnEdge(via, b, v); known {
+				// the edge that was taken into this block was itself decided by a nil test of that very value
+				equal = isNil
 			} else {
 				return -1
 			}
@@ -1048,6 +1051,26 @@ func phiBranch(b, via *ssa.BasicBlock) int {
 		return 0
 	}
 	return 1
+}
+
+// nilnessOnEdge: when block via ends in a branch on `v == nil` / `v != nil`
+// and exactly one of its successors is b, taking the edge via->b fixes
+// whether v is nil.
+func nilnessOnEdge(via, b *ssa.BasicBlock, v ssa.Value) (isNil, known bool) {
+	if via == nil || len(via.Instrs) == 0 {
+		return false, false
+	}
+	ifi, ok := via.Instrs[len(via.Instrs)-1].(*ssa.If)
+	if !ok || len(via.Succs) != 2 || (via.Succs[0] == b) == (via.Succs[1] == b) {
+		return false, false
+	}
+	at := Decompose(ifi.Cond)
+	if (at.Op != token.EQL && at.Op != token.NEQ) || at.Base != v || at.Other == nil || !IsNilConst(at.Other) {
+		return false, false
+	}
+	condTrue := via.Succs[0] == b
+	atomTrue := condTrue != at.Neg
+	return atomTrue == (at.Op == token.EQL), true
 }
 
 // correlKey returns a key for the branch condition at the end of b when it
